@@ -43,7 +43,7 @@ def _grpc():
     return AioRpcError(code=grpc.StatusCode.OUT_OF_RANGE, initial_metadata=None, trailing_metadata=None, details="out of range", debug_error_string="")
 
 
-def make_api(ex, calls, outcomes, all_ok=False):
+def make_api(ex, calls, outcomes, all_ok=False, slow_delay=1.0):
     class Api:
         async def set_power(self, cid, w):
             calls.append((cid, w))
@@ -52,7 +52,7 @@ def make_api(ex, calls, outcomes, all_ok=False):
             if o == "ok":
                 return
             if o == "slow_ok":  # succeeds well within the request timeout, but later than the other calls
-                await asyncio.sleep(1.0)
+                await asyncio.sleep(slow_delay)
                 return
             if o == "range":
                 err = OperationOutOfRange(server_url="x", operation="y", grpc_error=_grpc())
@@ -177,14 +177,15 @@ class Cache:
 
 
 def _pv_manager(ex, ids, calls, outcomes, sent):
-    connection_manager._CONNECTION_MANAGER = types.SimpleNamespace(api_client=make_api(ex, calls, outcomes), component_graph=None)
+    # PV pools: a request time-out that is not a whole number of seconds (2.5 s) and a slow success inside its fractional part (2.2 s)
+    connection_manager._CONNECTION_MANAGER = types.SimpleNamespace(api_client=make_api(ex, calls, outcomes, slow_delay=2.2), component_graph=None)
 
     class Sender:
         async def send(self, m):
             sent.append(m)
     mgr = PVManager.__new__(PVManager)
     mgr._results_sender = Sender()
-    mgr._api_power_request_timeout = timedelta(seconds=5)
+    mgr._api_power_request_timeout = timedelta(seconds=2.5)
     mgr._pv_inverter_ids = set(ids)
     mgr._component_pool_status_tracker = types.SimpleNamespace(get_working_components=lambda c: set(c))
     lows = {}
